@@ -412,6 +412,10 @@ def direct_grid(ctx, meta):
     sk2 = S.skeletons(2, 2)
     sk3 = [s for s in S.skeletons(3, 2) if len(s) == 6]
     sk4 = [] if ctx.quick else [s for s in S.skeletons(4, 2) if len(s) == 8]
+    # (skeletons used with every cell and every placement, skeletons used with the reduced cells and the
+    #  earliest/latest placements): representative primitive classes / composites and pairs of classes
+    rep_full, rep_red = (sk2, sk3) if ctx.quick else (sk2 + sk3, sk4)
+    cmp_full, cmp_red = (sk2, sk3) if ctx.quick else (sk2, sk3 + sk4)
     out, fam = [], {}
 
     def add(name, hs):
@@ -429,7 +433,7 @@ def direct_grid(ctx, meta):
             full, red = S.dtype_cells(k, vals, 0.0)
             ndt += 1
             if ndt <= 2:
-                add("dtype-subsets:" + k, S.family(sk2, sk3 + sk4, full, red))
+                add("dtype-subsets:" + k, S.family(rep_full, rep_red, full, red))
             else:
                 add("dtype-subsets-reduced", S.family([], sk2, [], red))
             tr = [[(k, [vals[j][s] if s in sub[j] else None for s in range(3)]) for j in range(3)]
@@ -449,7 +453,7 @@ def direct_grid(ctx, meta):
             red = [(pool[0], pool[1]), (pool[0], pool[3]), (pool[3], pool[1]), (pool[2], pool[0]), (pool[0], pool[0])]
             t3 = [pool[0], pool[1], pool[2]]
         if k in reps:
-            add("%s:%s" % (kind, k), S.family(sk2, sk3 + sk4, S.pool_cells(pool), red))
+            add("%s:%s" % (kind, k), S.family(rep_full, rep_red, S.pool_cells(pool), red))
             add("three-objects", S.triple_histories(t3))
         else:
             add("%s-other-classes" % kind, S.family([], sk2, [], red))
@@ -458,7 +462,7 @@ def direct_grid(ctx, meta):
         c = "fast_computations"
         pool = [(c, [True, False, True]), (c, [False, False, False]), (c, [False, True, True]), (c, [True, True, False])]
         pool += [(p, [False]) for p in S.touched(meta, c)] + [(S.touched(meta, c)[-1], [True])]
-        add("composite+parts:" + c, S.family(sk2, sk3, S.pool_cells(pool), S.pool_cells(pool[:2] + pool[4:6])))
+        add("composite+parts:" + c, S.family(cmp_full, cmp_red, S.pool_cells(pool), S.pool_cells(pool[:2] + pool[4:6])))
         add("three-objects", S.triple_histories([pool[0], pool[4], pool[1]]) + S.triple_histories([pool[6], pool[2], pool[7]]))
     if "linalg_dtypes" in comp:
         c = "linalg_dtypes"
@@ -466,7 +470,7 @@ def direct_grid(ctx, meta):
                 (c, ["torch.half", "torch.float", "torch.double"]), (c, ["torch.double", "torch.half", "torch.half"])]
         for p in S.touched(meta, c):
             pool += [(p, ["torch.float"]), (p, ["torch.half"])]
-        add("composite+parts:" + c, S.family(sk2, sk3, S.pool_cells(pool), S.pool_cells(pool[1:3] + pool[5:7])))
+        add("composite+parts:" + c, S.family(cmp_full, cmp_red, S.pool_cells(pool), S.pool_cells(pool[1:3] + pool[5:7])))
         add("three-objects", S.triple_histories([pool[1], pool[5], pool[2]]) + S.triple_histories([pool[6], pool[3], pool[8]]))
     # two different classes (same kind: a class attribute shared through the base class; different kinds)
     pairs = []
@@ -485,9 +489,10 @@ def direct_grid(ctx, meta):
             return arg_pool(meta, k)[1 + j]
         return {"KFlag": [j == 0], "KValue": ["torch.float" if k.startswith("_linalg_dtype") else v[11 + j]],
                 "KDtype": [vals[j][0], None, vals[j][2]] if j == 0 else [None, vals[j][1], None]}[kinds[k]]
+    named = set(pairs[-7:])
     for a, b in pairs:
         cells = [((a, one_arg(a, 0)), (b, one_arg(b, 1))), ((b, one_arg(b, 0)), (a, one_arg(a, 1)))]
-        add("two-classes", S.family(sk2, sk3, cells, cells))
+        add("two-classes", S.family(sk2, sk3 + (sk4 if (a, b) in named else []), cells, cells))
     if all(c in prim for c in ("debug", "cholesky_max_tries", "cholesky_jitter")):
         add("three-objects", S.triple_histories([("debug", [False]), ("cholesky_max_tries", [v[9]]), ("cholesky_jitter", [None, vals[0][1], None])]))
     # every class with every argument of its pool: a plain block
@@ -656,7 +661,7 @@ def run(ctx):
 
 def replay(rp):
     try:
-        meta = regenerate()
+        _, meta = settings_tr.translate(common.REPO)      # class table only; gen/ is left alone
     except settings_tr.Untranslatable:
         S, B, torch = load_real()
         meta = c17_spec.introspect_meta(S, B, torch)
